@@ -160,12 +160,12 @@ bool cache::save(std::ostream &out) const
 
   std::size_t num(0);
   for (const auto &s : table_)
-    if (s.seal == seal_ && !s.hash.empty())
+    if (s.seal == seal_ && !s.hash.empty() && s.fitness.size())
       ++num;
   out << num << '\n';
 
   for (const auto &s : table_)
-    if (s.seal == seal_ && !s.hash.empty())
+    if (s.seal == seal_ && !s.hash.empty() && s.fitness.size())
     {
       s.hash.save(out);
       s.fitness.save(out);
